@@ -124,7 +124,7 @@ Definition tag_get (tags : list (str * str)) (tag : str) : str :=
 Definition type_name (v : val) : str :=   (* reflect.Type.Name(): empty for unnamed composite types *)
   match v with
   | VStruct si _ => s_name si
-  | VTime => s2b "Time"
+  | VTime _ => s2b "Time"
   | VBool _ | VInt _ _ | VUint _ _ | VFloat _ _ _ _ | VStr _ => type_string v
   | _ => []
   end.
@@ -158,11 +158,11 @@ Section Struct.
     let nonsupport := if is_valid_kind
                       then put b [CValid sn field (value_string tv) (req_body cus Exist)] else b in
     match tv with
-    | VTime => Ok b
+    | VTime _ => Ok b
     | VPtr _ | VNilPtr _ | VStruct _ _ =>
       match remove_ptr tv with
       | VInvalid => rec (sn ++ DOT :: field) tv false b
-      | VStruct _ _ | VTime => rec (sn ++ DOT :: field) tv false b
+      | VStruct _ _ | VTime _ => rec (sn ++ DOT :: field) tv false b
       | _ => Ok nonsupport
       end
     | VSlice _ _ _ vs | VArray _ _ vs => on_elems (sn ++ DOT :: field) O vs b
@@ -225,7 +225,7 @@ Section Struct.
   Definition validate_body (sn : str) (value : val) (gather : bool) (b : buf) : res buf :=
     match remove_ptr value with
     | VInvalid => Ok b                                      (* nil pointer: nothing to validate *)
-    | VTime => Ok b                                         (* a struct without exported fields *)
+    | VTime _ => Ok b                                       (* a struct without exported fields *)
     | VStruct si fs =>
       let '(sn', cus) :=
         match sn with
